@@ -13,6 +13,7 @@ from vc import spec
 
 PROPERTY = {
     "id": "C12",
+    "claimed": False,       # work in progress, NOT registered: see DESIGN.md 12.3 (alarms on the unchanged tree are errors of the check)
     "level": "translation_validation",
     "engine": "tv",
     "technique": "validation under contract: the real SymbolicExecutionEngine is run on every IR program of a bounded family; the "
